@@ -20,8 +20,8 @@ import (
 
 func init() {
 	register(&Property{
-		ID:    "C16",
-		Level: "other",
+		ID:      "C16",
+		Level:   "other",
 		Explain: "The statement as a whole depends on which references survive into the rendered tree (references inside image alt text or inside the body of an unreferenced footnote are counted but not rendered — the dangling back-links reported in the property text); that is a property of documents and is NOT decided. Decided are the structural conditions without which no document could be consistent: (T) the id written for a reference and the href written for its back-link, and the href written for a reference and the id written for its footnote item, are built from the same template — the same sequence of constants, the same id prefix and the same node fields (Index, RefIndex under the same condition), extracted from the sink model's attribute contexts; (N) a footnote's Index is assigned only from the list counter immediately after incrementing it and only while the footnote is still unnumbered, so numbers are 1..Count in order of first reference; definitions still unnumbered are removed from the list and the list is sorted by a comparator on Index; (B) the transformer creates, for a footnote with reference count c, exactly the back-links RefIndex 0..c-1 with that Index, and numbers the references of one footnote 0,1,2,… in list order by the same counter discipline. (A) the inline parser never numbers a definition without returning the reference node in the same call; (I) no loop of the footnote code advances its sibling cursor through a node it detached in the same iteration. Not decided: that every counted reference is rendered (known deviation), distinctness of generated ids from user ids, nesting of footnotes in footnotes.",
 		Trusted: []string{"sink model and HTML lexer-state dataflow (DESIGN 2.5)", "SortChildren sorts by the comparator (C13)"},
 		Assumes: []string{"built-in footnote extension only"},
@@ -652,7 +652,7 @@ func ruleFootnoteNumbering(w *World, r *Report) {
 		at       ssa.Instruction
 		index    ssa.Value
 		refIndex ssa.Value
-		ctorBlk  *ssa.BasicBlock              // the block of the constructor call (in the transformer or in a helper)
+		ctorBlk  *ssa.BasicBlock           // the block of the constructor call (in the transformer or in a helper)
 		subst    func(ssa.Value) ssa.Value // helper parameters -> the transformer's call arguments
 	}
 	var creations []creation
